@@ -206,8 +206,8 @@ ADD2 = {
         "scripts with expression items; scenarios with unqualified staging tables and positional INSERT into a table created earlier.",
  "C06": " Round 6: c06_script_paths_well_formed_with_expressions (scripts of statements with expression items).",
  "C03": " Round 6: every statement of a generated script is also analysed on its own and its reads/writes compared with those it has inside the script.",
- "C08": " Round 6: several qualified stars over relations sharing a column name; table alias with a derived column list x AS keyword (K-C08-1 found: "
-        "without AS the column list is taken for the alias).",
+ "C08": " Round 6: several qualified stars over relations sharing a column name; table alias with a derived column list x AS keyword (found and repaired, fix 62bbb18: "
+        "without AS the column list was taken for the alias).",
  "C10": " Strict forms: c10_total_on_all_trees_strict (no ValueError disjunct, every statement type, under escape_free and nw_inner - both evaluated on "
         "every parse tree of the run) and c10_script_total_strict.",
  "C13": " Round 6: c13_exact_tables_any_provider_update_merge_select_into and c13_metadata_never_changes_tables_of_update_merge "
@@ -255,7 +255,7 @@ manifest = {
     }],
     "checks": checks,
     "not_applicable": na,
-    "notes": "fix commits in /repo: a8666bf, b8899d3, d6879c7, 1b08581, 0694b59, 335c6c0, a908979, baca01e, c90fd36, e020d83.  known_findings.json lists recorded defects (status known / fixed).",
+    "notes": "fix commits in /repo: 62bbb18, a8666bf, b8899d3, d6879c7, 1b08581, 0694b59, 335c6c0, a908979, baca01e, c90fd36, e020d83.  known_findings.json lists recorded defects (status known / fixed).",
 }
 (VERIF / "MANIFEST.json").write_text(json.dumps(manifest, indent=1) + "\n")
 print("claimed", sorted(CLAIMED), "not claimed", len(na))
